@@ -233,6 +233,78 @@ fn main() {
         let _ = std::fs::remove_dir_all(&dir);
         hist_done.fetch_add(1, Ordering::Relaxed);
     });
+    // ---- thorough: one long history with the REAL rotation threshold (1000 entries): 2100 upserts over 3 keys, crash
+    // images at every rotation step and after the operations around both rotations; each image must recover exactly
+    // the acknowledged prefix
+    if thorough && (run.shard().0 == 0 || !run.is_child()) && parent_covs.is_none() {
+        let dir = root.join("long");
+        let rt = tokio::runtime::Builder::new_current_thread().enable_all().build().unwrap();
+        rt.block_on(async {
+            use std::cell::RefCell;
+            use std::rc::Rc;
+            let live = dir.join("live");
+            let _ = std::fs::remove_dir_all(&live);
+            saorsa_core::verif_hooks::set_wal_rotation_entries(None);
+            saorsa_core::verif_hooks::set_timestamp_override(Some(T0));
+            let mgr = match Mgr::new(config(&live, FlushStrategy::Always)).await {
+                Ok(m) => m,
+                Err(e) => {
+                    run.machinery_error(format!("long history: {e}"));
+                    return;
+                }
+            };
+            let keys = ["a", "b", "c"];
+            let acked: Rc<RefCell<usize>> = Rc::new(RefCell::new(0));
+            let imgs: Rc<RefCell<Vec<(String, usize, Files)>>> = Rc::new(RefCell::new(Vec::new()));
+            {
+                let (im, ac, d) = (imgs.clone(), acked.clone(), live.clone());
+                saorsa_core::verif_hooks::set_crash_point(Some(Rc::new(move |label: &str, _p: &std::path::Path| {
+                    if label.starts_with("rotate:") {
+                        im.borrow_mut().push((label.to_string(), *ac.borrow(), read_dir_files(&d)));
+                    }
+                })));
+            }
+            let mut model = Model::new();
+            let mut models: Vec<Model> = vec![model.clone()];
+            for i in 0..2100usize {
+                saorsa_core::verif_hooks::set_timestamp_override(Some(T0 + (i / 700) as u64));
+                let k = keys[i % 3];
+                if let Err(e) = mgr.upsert(k.to_string(), 5000 + i as u32).await {
+                    run.violation_lazy("C06.op-failed", feats(&[("op", "upsert".into()), ("after", "long-history".into())]), || (json!({"index": i, "error": e.to_string()}), format!("upsert {i} failed: {e}")));
+                    return;
+                }
+                model.insert(k.to_string(), 5000 + i as u32);
+                models.push(model.clone());
+                *acked.borrow_mut() = i + 1;
+                if [998, 999, 1000, 1001, 1998, 1999, 2000, 2001, 2099].contains(&i) {
+                    imgs.borrow_mut().push((format!("after-op-{i}"), i + 1, read_dir_files(&live)));
+                }
+            }
+            saorsa_core::verif_hooks::set_crash_point(None);
+            drop(mgr);
+            let all = imgs.borrow().clone();
+            for (label, ack, files) in all.iter() {
+                distinct.eval();
+                recoveries.fetch_add(1, Ordering::Relaxed);
+                images_n.fetch_add(1, Ordering::Relaxed);
+                match recover(&dir.join("rec"), files, FlushStrategy::Always, None, T0 + 50).await {
+                    Ok(r) => {
+                        let ok = r.map == models[*ack] || (label.starts_with("rotate:") && *ack + 1 < models.len() && r.map == models[*ack + 1]);
+                        distinct.outcome(&("long", label.split('-').next().unwrap_or("").to_string(), ok));
+                        if !ok {
+                            let shape = if r.map.is_empty() { "nothing-recovered" } else { "acknowledged-op-lost" };
+                            run.violation_lazy("C06.acked", feats(&[("op", "upsert".into()), ("shape", shape.into()), ("at", format!("long-history:{}", label.split('-').next().unwrap_or("")))]), || {
+                                (json!({"history": "2100 upserts, keys a/b/c round robin, value 5000+i, real rotation threshold", "crash_at": label, "ops_acknowledged": ack, "recovered": r.map, "expected": models[*ack], "files": files.iter().map(|(n, b)| json!([n, b.len()])).collect::<Vec<_>>()}),
+                                 format!("long history, crash at {label}: recovered {:?}, expected {:?}", r.map, models[*ack]))
+                            });
+                        }
+                    }
+                    Err(e) => run.violation_lazy("C06.reopen", feats(&[("op", "upsert".into()), ("at", "long-history".into())]), || (json!({"crash_at": label, "error": e}), format!("reopen failed: {e}"))),
+                }
+            }
+        });
+        let _ = std::fs::remove_dir_all(&dir);
+    }
     let _ = std::fs::remove_dir_all(&root);
     if budget.was_hit() {
         run.cap_hit(format!("wall-clock budget: worker {:?} completed {} histories of its share", run.shard(), hist_done.load(Ordering::Relaxed)));
